@@ -5,6 +5,7 @@ package main
 import (
 	"fmt"
 	"go/ast"
+	"go/token"
 	"go/types"
 	"strings"
 )
@@ -29,7 +30,7 @@ func rulesC01(c *Ctx) {
 // R1.2
 func ruleNarrowingKeys(c *Ctx) {
 	const rule = "KEY-NARROWING"
-	n := 0
+	n, nf := 0, 0
 	for _, fi := range c.P.AllFuncs("rib") {
 		if fi.Decl.Body == nil {
 			continue
@@ -67,6 +68,7 @@ func ruleNarrowingKeys(c *Ctx) {
 			continue
 		}
 		c.Analysed[fi.Name] = true
+		nf++
 		isSite := map[*ast.CallExpr]bool{}
 		for _, s := range sites {
 			isSite[s] = true
@@ -141,7 +143,8 @@ func ruleNarrowingKeys(c *Ctx) {
 			c.check(bad[s] == "", rule, fi.Name, "narrowing "+types.ExprString(s), c.P.pos(s.Pos()), "dominated by validation of the same entry or a range test", bad[s])
 		}
 	}
-	c.floor(rule, "narrowing conversions of wire-derived keys", n, 5)
+	c.floor(rule, "narrowing conversions of wire-derived keys", n, 2)
+	c.floor(rule, "functions narrowing a wire-derived key (add and delete of the label table)", nf, 2)
 }
 
 func intBits(b *types.Basic) int {
@@ -265,6 +268,27 @@ func ruleExplicitReplace(c *Ctx) {
 		}
 		return true
 	})
+	// or: flag := op.Op == REPLACE (declared once, never reassigned)
+	if !ok {
+		ast.Inspect(fi.Decl.Body, func(n ast.Node) bool {
+			as, isAs := n.(*ast.AssignStmt)
+			if !isAs || len(as.Lhs) != 1 || len(as.Rhs) != 1 {
+				return true
+			}
+			be, isBe := ast.Unparen(as.Rhs[0]).(*ast.BinaryExpr)
+			if !isBe || be.Op != token.EQL {
+				return true
+			}
+			if constName(info, be.Y) != "AFTOperation_REPLACE" && constName(info, be.X) != "AFTOperation_REPLACE" {
+				return true
+			}
+			if v, isVar := objOfIdent(info, as.Lhs[0]).(*types.Var); isVar && soleDefinition(info, fi.Decl, v) != nil {
+				ok = true
+				erVar = v
+			}
+			return true
+		})
+	}
 	// every AddXXX call passes that variable
 	pass := 0
 	for _, call := range callsIn(fi.Decl.Body) {
